@@ -8,6 +8,7 @@
 """
 import re, z3
 
+from . import common
 from .common import Inconclusive
 from .mirsym import Sym, Str, Agg, Lazy, Ref, RefV, UNIT, vkey, derives_from
 from .summaries import canon, deref_val, opt_some, opt_none
@@ -27,9 +28,19 @@ class Model:
         self.ex = None
         self.fs = featureset
         self.sfn_memo = {}
+        self.inline_helpers = True
 
     def new_executor(self, extra_hooks=(), **kw):
         ex = self.ses.executor("lib", self.fs, hooks=list(extra_hooks) + [self.hook_trivia], inline=lambda n, f: False, **kw)
+        # free helper functions of context.rs (a refactoring may move the comment-line scanning into one) are part of the two tests
+        import os
+        src = open(os.path.join(common.REPO, "src/context.rs")).read()
+        free = set(re.findall(r"^(?:pub(?:\([a-z]+\))? )?fn\s+(\w+)", src, re.M)) - {"create_indent_trivia", "create_plain_indent_trivia", "create_newline_trivia",
+                                                                                   "line_ending_character"}
+        helpers = {n_ for n_ in ex.funcs if n_.split("::")[-1] in free and "<impl" not in n_ and "{closure" not in n_}
+        if helpers and self.inline_helpers:
+            ex.inline = lambda n, f, helpers=helpers: f.name in helpers and len(f.blocks) <= 60
+            ex.inline_closure_calls = True
         self.ex = ex
         return ex
 
